@@ -179,8 +179,13 @@ double Integrate(std::function<double(double)> func, double a, double b, const s
 	}
 	else if(method == "Tanh-Sinh")
 	{
+		// The integration variable is mapped onto [-1,1] first: boost's tanh_sinh loses accuracy on intervals which are narrow compared to the magnitude of their limits.
 		tanh_sinh<double> integrator;
-		return sign * integrator.integrate(func, a, b);
+		double centre = 0.5 * (a + b), half_width = 0.5 * (b - a);
+		auto mapped_func = [&func, a, b, centre, half_width](double t) {
+			return func(std::max(a, std::min(b, centre + half_width * t)));
+		};
+		return sign * half_width * integrator.integrate(mapped_func, -1.0, 1.0);
 	}
 	else if(method == "Gauss-Legendre_2")
 	{
